@@ -167,6 +167,8 @@ def o_spend(case):
         labels.append("unclean-fail")
     if case.get("mut"):
         labels.append("mutated")
+    if err == "PUSH_SIZE" and any(len(w) > 520 for w in sp["witness"]):
+        labels.append("witness-item>520:" + case["shape"])
     if verdict == V.EITHER:
         return labels
     # is_solution_ok must agree with check_solution
